@@ -58,7 +58,8 @@ theorem session_nofault_ledger (ho : TotalOrder cmp) (segs : List Segment) (t : 
     TreeTable.liveOf (t.runSession cmp segs m).2.2 t.triple + t.size =
       TreeTable.liveOf m t.triple + (t.runSession cmp segs m).2.1.size ∧
     TreeTable.Owns (t.runSession cmp segs m).2.1 (t.runSession cmp segs m).2.2 :=
-  (C03.session_refines ho segs t h m hm).2.2.2
+  let k := (C03.session_refines ho segs t h m hm).2.2.2
+  ⟨k.1, k.2.1, k.2.2.1⟩
 
 /-- (b) **`new … any session … destroy` returns the ledger to where it started**, whatever the
 allocator refuses on the way, on whichever triple the table was built, without a fault -/
@@ -130,6 +131,23 @@ theorem set_destroy_releases_all (ho : TotalOrder cmp) (tr : Triple) (m0 m1 : Me
   rw [f, ht] at this
   rw [ht] at e
   exact ⟨by omega, by rw [this.2, d, hf]⟩
+
+/-- (a)/(b) for sessions of a set (set calls interleaved with iterator sessions), and
+**`new … any session … destroy` returns the ledger to where it started** -/
+theorem set_session_destroy_releases_all (ho : TotalOrder cmp) (tr : Triple) (m0 m1 : Mem) (s0 : TreeSet)
+    (hnew : TreeSet.newT tr m0 = (.ok, some s0, m1)) (segs : List OrdSet.Segment)
+    (hv : TreeSet.SessionValid cmp s0 segs m1) :
+    TreeTable.liveOf ((s0.runSession cmp segs m1).2.1.destroy (s0.runSession cmp segs m1).2.2) tr =
+      TreeTable.liveOf m0 tr ∧
+    ((s0.runSession cmp segs m1).2.1.destroy (s0.runSession cmp segs m1).2.2).fault = m0.fault := by
+  obtain ⟨hi, ha, ht, hl, hf, how⟩ := (C03.set_new_inv (cmp := cmp) tr m0).1 s0 m1 hnew
+  have hs : s0.t.size = 0 := by rw [hi.1.size_eq, ha]; rfl
+  obtain ⟨_, _, c, d, e, f, _⟩ := TreeSet.session_ok ho segs hi m1 (TreeSet.owns_table hi how)
+  have := set_destroy_ledger (s0.runSession cmp segs m1).2.1 c (s0.runSession cmp segs m1).2.2
+    (by unfold TreeSet.Owns; rw [f, ht]; rw [ht] at e; omega)
+  rw [f, ht] at this
+  rw [ht] at e
+  exact ⟨by omega, by rw [this.2, d hv, hf]⟩
 
 theorem set_new_refused_no_leak (tr : Triple) (m0 : Mem) (h : (TreeSet.newT tr m0).1 = .errAlloc) :
     (TreeSet.newT tr m0).2.1 = none ∧
